@@ -342,6 +342,26 @@ def _establishes_dict(e, mv, lab):
     return False
 
 
+def rule_stdlib_corner_cases(chk):
+    """Standard-library text helpers whose defaults drop something a field value can contain."""
+    ctx = chk.ctx
+    m = ctx.p.mod("prettyprint")
+    n = 0
+    for x in ast.walk(m.tree):
+        if isinstance(x, ast.Call) and unparse(x.func).split(".")[-1] == "indent" and ("textwrap" in unparse(x.func) or isinstance(x.func, ast.Name)):
+            r = ctx.p.resolve_expr_static(m, None, x.func) if isinstance(x.func, (ast.Name, ast.Attribute)) else None
+            if not (r and r[0] == "ext" and str(r[1]).startswith("textwrap")):
+                continue
+            n += 1
+            has_pred = len(x.args) >= 3 or any(k.arg == "predicate" for k in x.keywords)
+            chk.req(has_pred, "C20.complete", "prettyprint:textwrap.indent-prefixes-every-line", "%s:%d" % (m.relpath, x.lineno),
+                    good="textwrap.indent is given an explicit predicate",
+                    fail="`%s`: without a predicate textwrap.indent prefixes only lines that contain non-whitespace characters, so a blank / spaces-only / tab-only line of a multi-line "
+                         "value (a traceback of chained exceptions, text with an empty line) is printed without the field's gutter -- it no longer reads as part of that field" % unparse(x)[:60])
+    if not n:
+        chk.ok("C20.complete", "prettyprint:no-lossy-stdlib-text-helper", m.relpath, "no textwrap.indent call in prettyprint.py")
+
+
 def rule_filter(chk):
     ctx = chk.ctx
     f = ctx.func("filter", "EliotFilter.run")
@@ -411,3 +431,4 @@ def run(chk):
     rule_oneline(chk)
     rule_cli(chk)
     rule_filter(chk)
+    rule_stdlib_corner_cases(chk)
